@@ -58,8 +58,11 @@ def install_resource_bounds():
 
     def assert_level_constraint(state, key, value):
         b = RESOURCE_BOUNDS.get(key)
-        if b is not None and core.is_sym(value):
-            core.cur().assume(value <= b)
+        if b is not None:
+            if core.is_sym(value):
+                core.cur().assume(value <= b)
+            elif isinstance(value, int) and not isinstance(value, bool) and value > b:
+                raise core.PathAbort("assume", "%s=%d above the resource bound" % (key, value))
         return orig(state, key, value)
 
     assert_level_constraint._symx_orig = orig
@@ -146,3 +149,44 @@ def sym_region(ctx, base, regions, name="b"):
             if i < len(cells) and isinstance(cells[i], int):
                 cells[i] = ctx.sym_bits("%s[%d]" % (name, i), 8, base[i])
     return cells
+
+
+# ---------------------------------------------------------------------------- deserialiser side
+SERDES_BOUNDS = {
+    "frame_width": 32, "frame_height": 32, "dwt_depth": 3, "dwt_depth_ho": 3, "slices_x": 8, "slices_y": 8,
+    "slice_prefix_bytes": 16, "slice_size_scaler": 64, "slice_bytes_numerator": 4096, "slice_bytes_denominator": 4096,
+    "fragment_slice_count": 8, "next_parse_offset": 300,
+}
+
+_serdes_bounded = False
+
+
+def install_serdes_bounds():
+    """Same resource bounds for the bitstream deserialiser: SerDes.uint/uint_lit results for the size-determining
+    targets are assumed within SERDES_BOUNDS (paths declaring more are abandoned as out of scope)."""
+    global _serdes_bounded
+    if _serdes_bounded:
+        return
+    from symx import core
+    import vc2_conformance.bitstream.serdes as S
+
+    def wrap(cls, meth):
+        orig = getattr(cls, meth)
+
+        def f(self, target, *a, **k):
+            v = orig(self, target, *a, **k)
+            b = SERDES_BOUNDS.get(target)
+            if b is not None:
+                if core.is_sym(v):
+                    core.cur().assume(v <= b)
+                elif isinstance(v, int) and not isinstance(v, bool) and v > b:
+                    # a concrete field mis-read as a size (e.g. after a symbolic parse code): out of scope as well
+                    raise core.PathAbort("assume", "%s=%d above the resource bound" % (target, v))
+            return v
+
+        setattr(cls, meth, f)
+
+    for cls in (S.Deserialiser,):
+        wrap(cls, "uint")
+        wrap(cls, "uint_lit")
+    _serdes_bounded = True
